@@ -1781,8 +1781,8 @@ def random_cycle_case(rng: random.Random) -> dict:
     hs = _cycle_handlers(rng, daemons_real=False)
     lv, av = rng.choice(VALS + [""]), rng.choice(VALS + [""])
     nv, ov = rng.choice(VALS + FALSY), rng.choice(VALS + [NOOLD, NOOLD] + FALSY)
-    if rng.random() < 0.3:
-        ov = nv                      # nothing changed since the last-handled state: no-op / resuming causes
+    if rng.random() < 0.25:
+        ov = "SAME"                  # nothing changed since the last-handled state: no-op / resuming causes
     resumed = [h["id"] for h, kind in hs if kind == "resume" and rng.random() < 0.4]
     return {"handlers": hs, "label": lv, "annotation": av, "field": nv, "stored": ov,
             "event": rng.choice(["ADDED", "MODIFIED", "MODIFIED", None, None, "DELETED"]),
@@ -1867,7 +1867,7 @@ async def _one_cycle(env: Env, rec: Rec, case: dict, k: int, step: dict, own_fin
     ann = {}
     if step["annotation"] is not None:
         ann[AK] = step["annotation"]
-    if step["stored"] != NOOLD:
+    if step["stored"] not in (NOOLD, "SAME"):
         ann["kopf.zalando.org/last-handled-configuration"] = json.dumps({"spec": spec_of(step["stored"])}) + "\n"
     if ann:
         meta["annotations"] = ann
@@ -1877,6 +1877,11 @@ async def _one_cycle(env: Env, rec: Rec, case: dict, k: int, step: dict, own_fin
     if step["marked"]:
         meta["deletionTimestamp"] = "2020-01-01T00:00:00Z"
     body = {"apiVersion": "kopf.dev/v1", "kind": "KopfExample", "metadata": meta, "spec": spec_of(step["field"]), "status": {"s": "x"}}
+    if step["stored"] == "SAME":      # the last-handled state is exactly the current essence (kopf's own builder)
+        extra = (registry._watching.get_extra_fields(resource=env.resource) | registry._changing.get_extra_fields(resource=env.resource)
+                 | registry._spawning.get_extra_fields(resource=env.resource))
+        essence = settings.persistence.diffbase_storage.build(body=env.bodies.Body(body), extra_fields=extra)
+        meta.setdefault("annotations", {})["kopf.zalando.org/last-handled-configuration"] = json.dumps(essence) + "\n"
     obs: dict[str, Any] = {"spawn": None, "causes": None, "patch": None, "handled": None, "delays": None, "applied": [],
                            "daemon_delays": [], "handler_delays": []}
 
